@@ -338,16 +338,20 @@ MICROS = [0, 1, 500000, 913070]
 DECS = ["0", "1", "1.0", "1.00", "-0.5", "0.5", "2.5", "1E+2", "100", "12.345", "-3", "0.10", "1.5"]
 
 
-def gen_exotic(rng):
-    r = rng.randrange(8)
-    if r <= 2:
+KINDS = ("datetime", "date", "time", "timedelta", "Decimal")
+
+
+def gen_exotic(rng, kind=None):
+    kind = kind or rng.choice(KINDS + ("datetime",))
+    if kind == "datetime":
+        tz = UTC if rng.random() < 0.4 else rng.choice(TZS)
         return datetime.datetime(2024, rng.choice([1, 5]), rng.choice([1, 17]), rng.choice([0, 22]), rng.choice([0, 15]),
-                                 rng.choice([0, 34]), rng.choice(MICROS), tzinfo=rng.choice(TZS))
-    if r == 3:
+                                 rng.choice([0, 34]), rng.choice(MICROS), tzinfo=tz)
+    if kind == "date":
         return datetime.date(2024, rng.choice([1, 5]), rng.choice([1, 17]))
-    if r == 4:
-        return datetime.time(rng.choice([0, 1, 22]), rng.choice([0, 2, 15]), rng.choice([0, 3, 34]), rng.choice(MICROS), tzinfo=rng.choice(TZS[:3]))
-    if r == 5:
+    if kind == "time":
+        return datetime.time(rng.choice([0, 1, 21]), rng.choice([0, 2, 15]), rng.choice([0, 3, 34]), rng.choice(MICROS), tzinfo=rng.choice(TZS[:3]))
+    if kind == "timedelta":
         return datetime.timedelta(days=rng.choice([0, 1, -1]), seconds=rng.choice([0, 7]), microseconds=rng.choice(MICROS))
     return decimal.Decimal(rng.choice(DECS))
 
@@ -368,8 +372,9 @@ def variants(rng, m):
     elif isinstance(m, datetime.time):
         out += [(m.replace(microsecond=(m.microsecond + 1) % 1000000), "plus_1us"), (m.replace(second=(m.second + 1) % 60), "plus_1s"),
                 (m.replace(tzinfo=rng.choice(TZS[:3])), "other_zone_same_wall_clock")]
-        if m.tzinfo is not None and m.hour < 22:
-            out.append((m.replace(hour=m.hour + 2, tzinfo=TZS[2]) if m.tzinfo is UTC else m.replace(tzinfo=UTC), "same_instant_or_clock"))
+        if m.tzinfo is UTC:
+            out.append((m.replace(hour=m.hour + 2, tzinfo=TZS[2]), "same_instant_other_zone"))
+        out.append((m.replace(tzinfo=None) if m.tzinfo is not None else m.replace(tzinfo=UTC), "naive_aware_flipped"))
     elif isinstance(m, datetime.timedelta):
         out += [(m + US, "plus_1us"), (m + datetime.timedelta(seconds=1), "plus_1s"), (-m, "negated")]
     else:
@@ -548,32 +553,35 @@ POSITIONS = {
 
 
 def gen_pairs(rng, n):
-    """(t1, t2, kind, is_copy)"""
+    """(t1, t2, kind, is_copy): per round every kind of exotic atom with all its variants at random positions, plus
+    nested values (copy, edits, independent, shared container)"""
     out = []
     for _ in range(n):
-        m = gen_exotic(rng)
-        for other, how in variants(rng, m):
-            pos = rng.choice(sorted(POSITIONS))
-            if pos == "dict_key" and not (key_renders(m) and key_renders(other)):
-                pos = "dict_value"
-            if pos == "dict_key" and how != "copy" and rng.random() < 0.5:
-                t1, t2 = {m: [1, 2], "k": 0}, {other: [1, 3], "k": 0}
-            else:
-                t1, t2 = POSITIONS[pos](m), POSITIONS[pos](other)
-            out.append((t1, t2, "variant:%s:%s@%s" % (type(m).__name__, how, pos), how == "copy"))
-        x = gen_xvalue(rng, depth=2)
-        out.append((x, copy.deepcopy(x), "nested:copy", True))
-        for _try in range(2):
-            y, how = edit(rng, x)
-            if how:
-                out.append((x, y, "nested:edit:" + how.split(":")[0], False))
-        if rng.random() < 0.4:
-            out.append((x, gen_xvalue(rng, depth=2), "nested:independent", False))
-        if rng.random() < 0.5:                     # one container object of t1 at two positions (lead's broadcast, point 2)
-            xs, ok = share(rng, [x, gen_xvalue(rng, depth=2), {"a": gen_xvalue(rng, depth=1), "b": gen_xvalue(rng, depth=1)}])
-            if ok:
-                y, how = edit(rng, copy.deepcopy(xs))
-                out.append((xs, y if how else copy.deepcopy(xs), "nested:shared_container", not how))
+        for exo in KINDS:
+            m = gen_exotic(rng, exo)
+            for other, how in variants(rng, m):
+                pos = rng.choice(sorted(POSITIONS))
+                if pos == "dict_key" and not (key_renders(m) and key_renders(other)):
+                    pos = "list_item"
+                if pos == "dict_key" and how != "copy" and rng.random() < 0.5:
+                    t1, t2 = {m: [1, 2], "k": 0}, {other: [1, 3], "k": 0}
+                else:
+                    t1, t2 = POSITIONS[pos](m), POSITIONS[pos](other)
+                out.append((t1, t2, "variant:%s:%s@%s" % (type(m).__name__, how, pos), how == "copy"))
+        for _k in range(2):
+            x = gen_xvalue(rng, depth=2)
+            out.append((x, copy.deepcopy(x), "nested:copy", True))
+            for _try in range(2):
+                y, how = edit(rng, x)
+                if how:
+                    out.append((x, y, "nested:edit:" + how.split(":")[0], False))
+            if rng.random() < 0.4:
+                out.append((x, gen_xvalue(rng, depth=2), "nested:independent", False))
+            if rng.random() < 0.6:                 # one container object of t1 at two positions (lead's broadcast, point 2)
+                xs, ok = share(rng, [x, gen_xvalue(rng, depth=2), {"a": gen_xvalue(rng, depth=1), "b": gen_xvalue(rng, depth=1)}])
+                if ok:
+                    y, how = edit(rng, copy.deepcopy(xs))
+                    out.append((xs, y if how else copy.deepcopy(xs), "nested:shared_container", not how))
     return out
 
 
@@ -610,7 +618,11 @@ def pair_cases(ctx, t1, t2, kind, zips, thrs, verboses, positional_only=False):
             if isinstance(r, Exception):
                 cases.append(("SA \"model does not raise\"", "DeepDiff raised " + repr(r)[:200], tag))
                 continue
-            obs = [tree_obs(r), recorded_opcode_paths(r, a)]
+            try:
+                obs = [tree_obs(r), recorded_opcode_paths(r, a)]
+            except Exception as e:  # noqa  (a value outside the universe in the result: the model never yields one)
+                cases.append(("SA \"a result inside the universe\"", "result cannot be canonicalised: " + repr(e)[:200], tag))
+                continue
             cases.append((model_tree_expr(a, b, zip_, thr), obs, tag))
             for verbose in verboses:
                 ip = ctx.rng.random() < 0.5
@@ -620,7 +632,12 @@ def pair_cases(ctx, t1, t2, kind, zips, thrs, verboses, positional_only=False):
                 if isinstance(r, Exception):
                     cases.append(("SA \"model does not raise\"", "DeepDiff raised " + repr(r)[:200], tag))
                     continue
-                cases.append((model_text_expr(a, b, zip_, thr, verbose, ip), text_obs(r), tag))
+                try:
+                    obs = text_obs(r)
+                except Exception as e:  # noqa
+                    cases.append(("SA \"a result inside the universe\"", "result cannot be canonicalised: " + repr(e)[:200], tag))
+                    continue
+                cases.append((model_text_expr(a, b, zip_, thr, verbose, ip), obs, tag))
     return cases
 
 
@@ -725,7 +742,11 @@ def stream_c03(ctx, pairs):
         if isinstance(r, Exception):
             cm.append(("SA \"model does not raise\"", "DeepDiff raised " + repr(r)[:200], tag))
             continue
-        obs = text_obs(r)
+        try:
+            obs = text_obs(r)
+        except Exception as e:  # noqa
+            cm.append(("SA \"a result inside the universe\"", "result cannot be canonicalised: " + repr(e)[:200], tag))
+            continue
         cm.append((model_text_expr(a, b, True, 0, 2, ip), obs, dict(tag, what="model vs implementation")))
         if dt_normal(t1, t2) and set_members_hash_safe(t1, t2):
             ctx.count("xu:c03:coqspec_vs_impl")
